@@ -36,8 +36,12 @@ func init() {
 	klog.SetOutput(io.Discard)
 }
 
-// MaxN is the number of entries the world's log can publish (FetcherTrace.cfg: MaxSize).
-const MaxN = 16
+// MaxN is the number of entries the world's log can publish (FetcherTrace.cfg: MaxSize; ScannerFanout*.cfg: WorldSize).
+const MaxN = 24
+
+// TraceN bounds the tree sizes of the randomly configured runs (TestTrace, TestBeyondTree); the cases of
+// ScannerFanout.tla use the whole world.
+const TraceN = 16
 
 // Entry is what the harness knows about the entry it built for one index, independently of the repository's parsers.
 type Entry struct {
@@ -80,48 +84,79 @@ func NewWorld(rng *rand.Rand) *World {
 		}
 		class := pattern[(i+off)%len(pattern)]
 		perClass[class]++ // kinds alternate within a class, so every (class, kind) pair occurs
-		e := Entry{Precert: (perClass[class]+flip)%2 == 0, CN: fmt.Sprintf("h%d.%s.test", i, fam), TS: uint64(1700000000000 + i*1000),
-			Class: class}
-		o := pki.Opts{CN: e.CN, DNS: []string{e.CN}}
-		if e.Precert {
-			o.Poison = "ok"
+		variant := 0
+		if class == "nonfatal" {
+			variant = rng.Intn(2)
 		}
-		if e.Class == "nonfatal" {
-			o.Unparsable = true
-			if rng.Intn(2) == 0 {
-				o.Extra = []pkix.Extension{{Id: oidSAN, Value: []byte{0x30, 0x05, 0x87, 0x03, 1, 2, 3}}} // iPAddress of 3 bytes
-			} else {
-				o.Extra = []pkix.Extension{{Id: oidAIA, Value: []byte{0x30, 0x00}}} // empty AuthorityInfoAccess
-			}
-		}
-		leaf := root.Issue(o)
-		e.DER = leaf.DER
-		ent, err := ref.EntryForChain([][]byte{leaf.DER, root.DER}, false)
-		if err != nil {
-			panic(err)
-		}
-		if (ent.Type == ref.PrecertEntry) != e.Precert {
-			panic("entry type")
-		}
-		if e.Class == "fatal" {
-			// the logged (pre-)certificate is cut in the middle; the TLS structures around it are intact
-			e.CN = ""
-			if e.Precert {
-				ent.TBS = ent.TBS[:len(ent.TBS)/2]
-			} else {
-				ent.Cert = ent.Cert[:len(ent.Cert)/2]
-				e.DER = ent.Cert
-			}
-		}
-		e.Leaf.LeafInput = ref.MerkleTreeLeaf(e.TS, ent, nil)
-		if e.Precert {
-			e.Leaf.ExtraData = ref.PrecertChainEntry(leaf.DER, root.DER)
-		} else {
-			e.Leaf.ExtraData = ref.CertChain(root.DER)
-		}
-		w.Entries = append(w.Entries, e)
+		w.Entries = append(w.Entries, buildEntry(root, i, class, (perClass[class]+flip)%2 == 0, fam, variant))
 	}
 	return w
+}
+
+// WorldSpec is the log content a specification prescribes (ScannerFanoutMC.tla, record WORLD): per index the entry
+// kind ("x509" | "precert"), the parse class and the family of the subject name.
+type WorldSpec struct {
+	Kind, Class, Fam []string
+}
+
+// NewWorldFrom builds the entries the specification describes.
+func NewWorldFrom(ws *WorldSpec) (*World, error) {
+	if len(ws.Kind) != MaxN || len(ws.Class) != MaxN || len(ws.Fam) != MaxN {
+		return nil, fmt.Errorf("the specification's log has %d/%d/%d entries, the harness is built for %d", len(ws.Kind), len(ws.Class), len(ws.Fam), MaxN)
+	}
+	root := pki.NewRoot(pki.Opts{CN: "c16 root"})
+	w := &World{}
+	for i := 0; i < MaxN; i++ {
+		if ws.Kind[i] != "x509" && ws.Kind[i] != "precert" || ws.Fam[i] != "alpha" && ws.Fam[i] != "beta" {
+			return nil, fmt.Errorf("entry %d: kind %q family %q", i, ws.Kind[i], ws.Fam[i])
+		}
+		w.Entries = append(w.Entries, buildEntry(root, i, ws.Class[i], ws.Kind[i] == "precert", ws.Fam[i], i/2%2))
+	}
+	return w, nil
+}
+
+// buildEntry makes entry i of a log: a (pre-)certificate for h<i>.<fam>.test of the given parse class with the
+// timestamp 1700000000000 + 1000*i ms (so that the second of the timestamp has the parity of i).
+func buildEntry(root *pki.Node, i int, class string, precert bool, fam string, variant int) Entry {
+	e := Entry{Precert: precert, CN: fmt.Sprintf("h%d.%s.test", i, fam), TS: uint64(1700000000000 + i*1000), Class: class}
+	o := pki.Opts{CN: e.CN, DNS: []string{e.CN}}
+	if e.Precert {
+		o.Poison = "ok"
+	}
+	if e.Class == "nonfatal" {
+		o.Unparsable = true
+		if variant == 0 {
+			o.Extra = []pkix.Extension{{Id: oidSAN, Value: []byte{0x30, 0x05, 0x87, 0x03, 1, 2, 3}}} // iPAddress of 3 bytes
+		} else {
+			o.Extra = []pkix.Extension{{Id: oidAIA, Value: []byte{0x30, 0x00}}} // empty AuthorityInfoAccess
+		}
+	}
+	leaf := root.Issue(o)
+	e.DER = leaf.DER
+	ent, err := ref.EntryForChain([][]byte{leaf.DER, root.DER}, false)
+	if err != nil {
+		panic(err)
+	}
+	if (ent.Type == ref.PrecertEntry) != e.Precert {
+		panic("entry type")
+	}
+	if e.Class == "fatal" {
+		// the logged (pre-)certificate is cut in the middle; the TLS structures around it are intact
+		e.CN = ""
+		if e.Precert {
+			ent.TBS = ent.TBS[:len(ent.TBS)/2]
+		} else {
+			ent.Cert = ent.Cert[:len(ent.Cert)/2]
+			e.DER = ent.Cert
+		}
+	}
+	e.Leaf.LeafInput = ref.MerkleTreeLeaf(e.TS, ent, nil)
+	if e.Precert {
+		e.Leaf.ExtraData = ref.PrecertChainEntry(leaf.DER, root.DER)
+	} else {
+		e.Leaf.ExtraData = ref.CertChain(root.DER)
+	}
+	return e
 }
 
 // CheckClasses confirms the precondition the classes rest on (an input check, not an oracle): the repository's parser
@@ -196,6 +231,11 @@ type Fake struct {
 	errBudget int
 	errKinds  []string
 
+	// case mode (ScannerFanout.tla): the reply to a request starting at s has replyAt[s] entries (clipped to what was
+	// asked; everything asked for when s is not listed), whatever was injected before; tree heads never fail
+	replyAt map[int64]int
+	ws      *WorldSpec // the WORLD record the log content was built from (goes into replay files)
+
 	lat *rand.Rand // virtual latencies (never influences which reply is given in scripted mode)
 
 	nreq     int
@@ -267,7 +307,7 @@ func (f *Fake) GetSTH(ctx context.Context) (*ct.SignedTreeHead, error) {
 			f.size = f.final
 			f.emit(map[string]any{"ev": "Publish", "size": f.final})
 		}
-	} else if f.errBudget > 0 && f.rng.Intn(4) == 0 {
+	} else if f.replyAt == nil && f.errBudget > 0 && f.rng.Intn(4) == 0 {
 		f.errBudget--
 		kind = f.errKinds[f.rng.Intn(len(f.errKinds))]
 	}
@@ -331,6 +371,10 @@ func (f *Fake) GetRawEntries(ctx context.Context, start, end int64) (*ct.GetEntr
 		if f.errBudget > 0 && f.rng.Intn(4) == 0 {
 			f.errBudget--
 			kind = f.errKinds[f.rng.Intn(len(f.errKinds))]
+		} else if f.replyAt != nil {
+			if k, ok := f.replyAt[start]; ok && k >= 1 && k < asked {
+				n = k
+			}
 		} else if f.rng.Intn(2) == 0 {
 			n = 1 + f.rng.Intn(asked)
 		}
